@@ -174,6 +174,29 @@ class Rig(object):
         finally:
             self.ba.EthernetChannel.make_local_socket = orig
 
+    def build(self, specs, as_set):
+        ''' build messages with the scapy classes the agent uses: specs = [(kind, hints, fields, data)] with
+        kind in bundle|seg|end|pad, hints = [(type, data)] → octets (or {'raised': class}) '''
+        bm = self.bm
+        from scapy.packet import Raw
+        try:
+            msgs = []
+            for (kind, hints, fields, data) in specs:
+                hs = [(bm.HintHead(hint_type=t) / Raw(d)) if d else bm.HintHead(hint_type=t) for (t, d) in hints]
+                head = bm.MessageHead(hints=hs) if hs else bm.MessageHead()
+                if kind == 'bundle':
+                    msgs.append(head / bm.BundlePdu(data))
+                elif kind == 'pad':
+                    msgs.append(head / bm.DefinitePadding(data))
+                else:
+                    cls = bm.TransferEnd if kind == 'end' else bm.TransferSeg
+                    msgs.append(head / cls(xfer_num=fields[0], seg_idx=fields[1]) / Raw(data))
+            if as_set:
+                return bytes(bm.MessageSet(msgs=msgs))
+            return b''.join(bytes(m) for m in msgs)
+        except Exception as err:   # noqa
+            return {'raised': type(err).__name__}
+
     def decode(self, data):
         ''' MessageSet(data) → canonical dict, or {'outside': True} when scapy fell back to Raw '''
         bm = self.bm
@@ -320,7 +343,8 @@ def run_send(chk, rig, cases):
         data = payload(L, xfer % 7)
         small = m is not None and L + 4 >= m and m <= 18          # independent arithmetic
         toolong = (m is None or L + 4 < m) and L >= 2 ** 20       # one PDU that the 20-bit length cannot declare
-        expect = 1 if (m is None or L + 4 < m) else ((L + (m - 19)) // (m - 18) if m > 18 else 0)
+        rem = min(m - 18, 2 ** 20 - 15) if m is not None else 0
+        expect = 1 if (m is None or L + 4 < m) else ((L + rem - 1) // rem if m > 18 else 0)
         res = rig.send(xfer, data, m, expect + 5 if not small else 50)
         ptx = rig.process_tx(xfer, data, m, expect + 5 if not small else 50) if (small or toolong or (expect <= 300 and L < 2 ** 19)) else None
         reqs.append({'op': 'btpu.send', 'xfer': xfer, 'data': data.hex(), **({} if m is None else {'mtu': m})})
@@ -462,6 +486,59 @@ def run_codec(chk, rig, frames):
                 chk.violation('C20:valid-frame-decoded-differently', 'MessageSet disagrees with the independent reader', rep)
             if d['reenc'] != f.hex():
                 chk.violation('C20:reencode-differs', 'bytes(MessageSet(frame)) != frame', rep)
+
+
+def run_build(chk, rig):
+    ''' encode direction: message sets built with the real classes (any hint list) vs the model's encoder
+    and vs the independent writer/reader; then decoded again by the implementation. '''
+    rng = chk.rng
+    n = 2500 if chk.tier == 'thorough' else 400
+    specs_all = []
+    hint_shapes = [[], [4], [0], [4, 1], [0, 0], [1, 30, 2], [4, 4, 4], [255], [3, 0, 7, 1]]
+    for i in range(n):
+        specs = []
+        for _m in range(rng.choice([1, 1, 2, 3])):
+            shape = hint_shapes[i % len(hint_shapes)] if _m == 0 else rng.choice(hint_shapes)
+            hints = [(rng.randrange(0, 128), bytes(rng.randrange(0, 256) for _x in range(k))) for k in shape]
+            kind = rng.choice(['bundle', 'bundle', 'seg', 'end', 'pad'])
+            data = bytes(rng.randrange(0, 256) for _x in range(rng.choice([1, 2, 9, 40, 300])))
+            fields = (rng.choice([0, 1, 2 ** 32 - 1, rng.randrange(2 ** 32)]), rng.choice([0, 1, 255, 256, rng.randrange(2 ** 32)]))
+            specs.append((kind, hints, fields, data))
+        specs_all.append((specs, rng.random() < 0.5))
+    reqs = []
+    for specs, _as_set in specs_all:
+        ms = []
+        for (kind, hints, fields, data) in specs:
+            pl = data if kind in ('bundle', 'pad') else fields[0].to_bytes(4, 'big') + fields[1].to_bytes(4, 'big') + data
+            ms.append({'type': {'pad': 1, 'bundle': 2, 'seg': 3, 'end': 4}[kind], 'hints': [[t, d.hex()] for (t, d) in hints], 'payload': pl.hex()})
+        reqs.append({'op': 'btpu.build', 'msgs': ms})
+    answers = chk.driver(reqs)
+    for (specs, as_set), req, ans in zip(specs_all, reqs, answers):
+        out = rig.build(specs, as_set)
+        rep = {'kind': 'build', 'msgs': req['msgs'], 'as_set': as_set}
+        chk.case({'m': [(m['type'], [h[0] for h in m['hints']], len(m['payload']) // 2) for m in req['msgs']]}, nontrivial=True,
+                 sample=any(len(m['hints']) >= 2 for m in req['msgs']))
+        chk.cov['traces_validated_against_impl'] += 1
+        chk.count('build:hints-%d' % max(len(m['hints']) for m in req['msgs']))
+        if isinstance(out, dict):
+            chk.corr_break('building raised %s' % out['raised'], rep)
+            chk.violation('C20:build-raises', 'building a message set with the agent\'s message classes raised %s' % out['raised'], rep)
+            continue
+        if out.hex() != ans.get('hex'):
+            chk.corr_break('built octets differ: impl %s model %s' % (out[:48].hex(), str(ans.get('hex'))[:96]), rep)
+        want = [(m['type'], [(h[0], h[1]) for h in m['hints']], m['payload']) for m in req['msgs']]
+        indep = b''.join(mk_frame(m['type'], [(h[0], bytes.fromhex(h[1])) for h in m['hints']], bytes.fromhex(m['payload'])) for m in req['msgs'])
+        r = rd_frames(out)
+        got = None if r is None else [(t, [(ht, hd.hex()) for (ht, hd) in hs], pl.hex()) for (t, _fl, hs, pl) in r[0]]
+        if out != indep or got != want:
+            chk.violation('C20:built-message-set-wrong',
+                          'the octets built for %s do not read back (independent reader) as the same messages with declared = actual '
+                          'lengths: got %s' % (str(want)[:200], str(got)[:200]), rep)
+            continue
+        d = rig.decode(out)
+        dm = [(m['type'], [(h['type'], h['hex']) for h in m['hints']], m['payload']) for m in d.get('msgs', [])] if 'msgs' in d else None
+        if dm != want or d.get('rest') != '':
+            chk.violation('C20:built-frame-does-not-roundtrip', 'MessageSet(built octets) gives %s for %s' % (str(dm)[:200], str(want)[:200]), rep)
 
 
 # ---------------------------------------------------------------- receive side
@@ -690,6 +767,7 @@ def run(chk):
     rig = Rig()
     chk.cov['rule'] = ('send: (length, MTU) windows around total+4==mtu, mtu 17..22 (remain_size -1..4), exact/short/over last '
                        'segments, 2^20 length-field wrap, random; codec: random message sets with 0-3 hints, all payload kinds, '
+                       'built with the scapy classes (0-4 hints) and dissected, '
                        'padding, altered flags/length/H bits, truncation; recv: all permutations (thorough) or random orders '
                        '(quick) of 2..6 segments with/without duplicates, the sender\'s own frames shuffled, 2-3 interleaved '
                        'transfers/channels composed into frames with padding and Bundle PDUs, one-segment transfers, malformed stream')
@@ -701,6 +779,7 @@ def run(chk):
     ]
     run_send(chk, rig, send_cases(chk))
     run_codec(chk, rig, codec_frames(chk))
+    run_build(chk, rig)
     run_recv(chk, rig, recv_scenarios(chk, rig), 'reasm')
     run_recv(chk, rig, malformed_scenarios(chk), 'malformed')
     timing_probe(chk, rig)
@@ -745,6 +824,24 @@ def replay(chk, path):
         for sig, what in viol:
             print('MONITOR %s: %s' % (sig, what))
         return 1 if viol else 0
+    if rep.get('kind') == 'build':
+        specs = []
+        for m in rep['msgs']:
+            pl = bytes.fromhex(m['payload'])
+            kind = {1: 'pad', 2: 'bundle', 3: 'seg', 4: 'end'}[m['type']]
+            hints = [(h[0], bytes.fromhex(h[1])) for h in m['hints']]
+            if kind in ('seg', 'end'):
+                specs.append((kind, hints, (int.from_bytes(pl[:4], 'big'), int.from_bytes(pl[4:8], 'big')), pl[8:]))
+            else:
+                specs.append((kind, hints, None, pl))
+        out = rig.build(specs, rep.get('as_set', False))
+        ans = chk.driver([{'op': 'btpu.build', 'msgs': rep['msgs']}])[0]
+        print('messages: %s' % json.dumps(rep['msgs'])[:600])
+        print('built   : %s' % (out if isinstance(out, dict) else out.hex()[:400]))
+        print('model   : %s' % str(ans.get('hex'))[:400])
+        if not isinstance(out, dict):
+            print('decoded : %s' % json.dumps(rig.decode(out))[:600])
+        return 0 if (not isinstance(out, dict) and out.hex() == ans.get('hex')) else 1
     if rep.get('kind') == 'codec':
         f = bytes.fromhex(rep['hex'])
         print('impl: %s' % json.dumps(rig.decode(f))[:800])
